@@ -82,6 +82,8 @@ def run(ctx):
                         expect.append('(Some (%s, %s), ROk)' % (KCLS[type(lo).__name__][0], cg(type(lo).__name__, lo.terms)))
                     except FileNotFoundError:
                         expect.append('(@None (cls * gop), RErrMissing)')
+                    except Exception as e:      # any other failure of a well-formed load is a deviation from the model
+                        expect.append('(@None (cls * gop), RErrFormat)')
                     steps.append('(FLoad "%s" %s)' % (name, cbool(text)))
             files = sorted(os.listdir(tmp))
             expr = ('(let (d, rs) := frun [] %s in results_eqb rs %s && files_eqb d %s)' %
